@@ -887,6 +887,12 @@ func (e *Engine) scalar(v Val) Term {
 // toIdx converts an integer scalar to the index sort.
 func (e *Engine) toIdx(v Val) Term {
 	s := v.(Scalar)
+	if e.ar.mode == ModeInt && s.T.Sort == SInt {
+		// an index of an unsigned type is used as it is (Go does not convert it to int): no wrap-around
+		if _, signed, ok := intInfo(s.Ty); ok && !signed {
+			return s.T
+		}
+	}
 	return e.ar.Convert(s.T, s.Ty, types.Typ[types.Int], e.fresh)
 }
 
